@@ -109,8 +109,12 @@ def run(ctx):
     # (an Err arm that `continue`s to the next piece loses the text and still reports the buffer as written)
     w4 = core.Filtered(rep, lambda rule, anchor, instance: rule == "W4" and instance == "write:Err-arm-leaves")
     rep.guarded("W4", "anstream::strip::write", lambda: stripstream.rule_W2(facts, w4))
+    # ... and formatted writes reach the stripper only as the UTF-8 bytes of the pieces std hands to write_str (an override of
+    # write_char that feeds a character in another encoding puts bytes in front of the stripper that are not the text's)
+    w5 = core.Filtered(rep, lambda rule, anchor, instance: rule == "W4" and instance in ("write_str:calls-writer-with-the-bytes", "only-write_str-reaches-the-writer"))
+    rep.guarded("W4", "anstream::fmt::Adapter", lambda: stripstream.rule_adapter(facts, w5, "anstream", "anstream::fmt::"))
     rep.guarded("decoder", "anstream::adapter::strip::Utf8Parser::add", lambda: rule_decoder(facts, rep))
-    for r, n in (("decoder", 3), ("table", 16), ("keep", 17), ("S1", 7), ("S2", 8), ("S3", 3), ("S4", 3), ("S5", 12), ("S6", 5), ("between-slices", 1), ("reach", 18), ("W1", 4), ("W3", 1), ("W4", 1)):
+    for r, n in (("decoder", 3), ("table", 16), ("keep", 17), ("S1", 7), ("S2", 8), ("S3", 3), ("S4", 3), ("S5", 12), ("S6", 5), ("between-slices", 1), ("reach", 18), ("W1", 4), ("W3", 1), ("W4", 3)):
         rep.floor(r, n)
 
 
